@@ -110,7 +110,8 @@ def observe (w : World) : Json :=
       ("len", num ents.length),
       ("spell", Json.arr (ents.map fun (k, _) =>
           let de : Str := if k.ext = [] then [] else DOT :: k.ext
-          let names := [Name.str (joinFileParts k), Name.pair k.dir (k.name ++ de), Name.triple k.dir k.name k.ext]
+          let names := [Name.str (joinFileParts k), Name.pair k.dir (k.name ++ de), Name.triple k.dir k.name k.ext,
+            if k.ext = [] then Name.triple k.dir k.name k.ext else Name.triple k.dir (k.name ++ de) []]
           Json.arr (names.map fun nm =>
             Json.bool (decide (getFileParts nm = k) && (v.tree.lookup (getFileParts nm)).isSome)).toArray).toArray),
       ("dirfile", match w.dirFile with | none => Json.null | some b => digest b),
